@@ -2371,7 +2371,7 @@ def exhaustive_b(ctx):
         eval_b(ctx, items[k:k + 48])
 
 
-QUICK = {"A": 300, "B": 100, "C": 500, "D": 400, "E": 400, "F": 180, "G": 260, "H": 200, "I": 160}        # B counts databases (x ~42 lookups)
+QUICK = {"A": 250, "B": 80, "C": 420, "D": 340, "E": 340, "F": 160, "G": 220, "H": 200, "I": 140}        # B counts databases (x ~42 lookups)
 THOROUGH = {"A": 6000, "B": 4000, "C": 20000, "D": 15000, "E": 15000, "F": 6000, "G": 12000, "H": 8000, "I": 8000}
 CHUNK = {"A": 600, "B": 120, "C": 600, "D": 600, "E": 700, "F": 300, "G": 400, "H": 400, "I": 300}
 
